@@ -183,6 +183,26 @@ func (in *Interp) stdIntrinsic(fn *ssa.Function, name string, args []Value) (Val
 		if f := in.harnessFunc("vfCtxWithTimeout"); f != nil {
 			return in.callFunc(&FuncV{fn: f}, args), true
 		}
+	// crypto and PEM/X.509 parsing are replaced by deterministic stubs written in
+	// the harness (vf_crypto.go): usable key / unusable key, opaque ciphertexts
+	case "encoding/pem.Decode":
+		if f := in.harnessFunc("vfPemDecode"); f != nil {
+			return in.callFunc(&FuncV{fn: f}, args), true
+		}
+	case "crypto/x509.ParsePKCS1PublicKey":
+		if f := in.harnessFunc("vfParsePKCS1PublicKey"); f != nil {
+			return in.callFunc(&FuncV{fn: f}, args), true
+		}
+	case "crypto/rsa.EncryptOAEP":
+		if f := in.harnessFunc("vfEncryptOAEP"); f != nil {
+			return in.callFunc(&FuncV{fn: f}, []Value{args[2], args[3], args[4]}), true
+		}
+	case "crypto/sha1.New":
+		return &IfaceV{typ: in.fmtErrType(), val: &OpaqueV{tag: "sha1"}}, true
+	case "crypto/rand.Read":
+		if f := in.harnessFunc("vfRandRead"); f != nil {
+			return in.callFunc(&FuncV{fn: f}, args), true
+		}
 	}
 	if strings.HasSuffix(name, ".init") {
 		return nil, true
